@@ -13,11 +13,11 @@ def hook_commits():
 # id -> (technique, level text, level note, design ref)
 CHECKS = {
  "C08": ("exhaustive boundary grids + proptest-driven random operands against an i128/IEEE oracle, four evaluation routes (differential)",
-         "Every pair of a 45-value i64 boundary grid and a 30-value f64 grid for every scalar operator, plus seeded random operands, evaluated folded, through the host API, through an in-language call and as compound assignment, each compared with an independent i128 / IEEE oracle. Exploration: complete on the grids, sampled elsewhere.",
+         "Every pair of a 45-value i64 boundary grid and a 30-value f64 grid for every scalar operator, plus seeded random operands, evaluated folded, through the host API, through an in-language call, with one operand constant, under a prefix operator (`!(a < b)`, `-(a - b)`) and as compound assignment, each compared with an independent i128 / IEEE oracle. Exploration: complete on the grids, sampled elsewhere.",
          "Trusts the harness oracle (i128 arithmetic, Rust f64 = IEEE-754, platform pow for float **) and that the grid covers the boundary classes listed in the evidence labels.",
          "DESIGN.md section 3, C08"),
  "C09": ("exhaustive small-scope enumeration + proptest random sequences/bounds against a re-implementation of Python's slice.indices (reference model), folded and run-time routes",
-         "All arrays and strings (ASCII and 2/3/4-byte scalars) up to length 4 (quick) / 6 (thorough) x all indices and all (start, stop, step) triples in a range exceeding the length on both sides plus MIN/MAX, compared with Python slice semantics on i128; both the constant-folded and the run-time (host API call) routes; static type of the slice must admit the value.",
+         "All arrays and strings (ASCII and 2/3/4-byte scalars, plus 14 scalars with boundary UTF-8 lead/continuation bytes) up to length 4 (quick) / 6 (thorough) x all indices and all (start, stop, step) triples in a range exceeding the length on both sides plus MIN/MAX, compared with Python slice semantics on i128; both the constant-folded and the run-time (host API call) routes; static type of the slice must admit the value.",
          "Trusts the harness's re-implementation of slice.indices and that literal sequences evaluate to themselves.",
          "DESIGN.md section 3, C09"),
  "C10": ("proptest-generated type triples (derived by widening / near-miss perturbation) + exhaustive triples over a 34-type basis, algebraic laws and semantic-witness value soundness as oracles",
@@ -37,23 +37,23 @@ CHECKS = {
          "Both sides are evaluated by the implementation (parentheses are trusted to group); chains whose groupings cannot be distinguished are counted, not claimed.",
          "DESIGN.md section 3, C14"),
  "C03": ("exhaustive short token sequences + proptest-driven random token sequences, grammar derivations (pest_meta on the project's own grammar), token-level mutation of the documentation corpus, an operator x operand-type matrix, constant-failure and import fault catalogues; oracle: no panic (crash oracle on a total function)",
-         "About 1.3M calls per quick run of Code::parse (two environments), Code::return_type, Error::to_string, Variable::from_str and Type::from_str on generated text; every construct of the grammar is reached through derivations and the operand-type matrix (60 operand types incl. `!`, `any`, unions of every compound kind x ~100 unary and ~60 binary templates).",
+         "About 2.4M calls per quick run of Code::parse (two environments), Code::return_type, Error::to_string, Variable::from_str and Type::from_str on generated text; every construct of the grammar is reached through derivations and the operand-type matrix (60 operand types incl. `!`, `any`, unions of every compound kind x ~150 unary and ~70 binary templates), the same matrix over constant operands of union static type, tape-generated typed programs with token edits, and a catalogue of names rebound from their own old value.",
          "Inputs nested deeper than 40 brackets and imports outside the scratch directory are skipped (stack exhaustion and device reads are outside the claim); a panic hook + catch_unwind is the observation.",
          "DESIGN.md section 3, C03"),
  "C16": ("seeded workload generation + repeated execution on real oversubscribed threads (schedule sampling); oracles: orbit multiset of returned values, per-update bit ownership, brute-force linearizability against the i128 model, sequential-result differential",
-         "Lost, duplicated or torn updates of every assignment operator are made visible by construction (injective orbits, one bit per update, identity updates racing with increments, linearizability of small histories); unshared executions of shared Code/Function values (incl. the lazy iterator helpers) must equal the sequential result. Hundreds of workloads x repetitions per quick run, ~4M shared operations.",
+         "Lost, duplicated or torn updates of every assignment operator are made visible by construction (injective orbits, one bit per update, identity updates racing with increments, linearizability of small histories, appends of distinct tokens to shared array / string / float cells); unshared executions of shared Code/Function values (incl. the lazy iterator helpers) must equal the sequential result. Hundreds of workloads x repetitions per quick run, ~4M shared operations.",
          "The harness does not own the scheduler: interleavings are sampled by repetition on 16 cores; a race needing one rare interleaving, or a deadlock (reported as inconclusive by the watchdog), can be missed.",
          "DESIGN.md section 3 C16 and section 7"),
  "C19": ("proptest-generated value pairs x provenance paths + exhaustive basis x path pairs; oracle: structural equality of the harness's value model (reference model), symmetry/negation/reflexivity laws",
-         "Equal and nearly-equal first-order values are built along 24 provenance paths (every array-producing operator, any/union-typed positions, cells, closures, loops) and compared with ==, !=, match value arms, bound/unbound, folded/run-time and nested inside arrays, tuples and structs; ~460k comparisons per quick run, 20 basis values x 24 x 24 path pairs swept completely.",
+         "Equal and nearly-equal first-order values are built along 24 provenance paths (every array-producing operator, any/union-typed positions, cells, closures, loops) and compared with ==, !=, match value arms, bound/unbound, folded/run-time and nested inside arrays, tuples and structs; ~650k comparisons per quick run, 24 basis values x 26 x 26 path pairs swept completely (two paths label the array with a wider declared element type than a literal gets); a value compared with itself through one name at top level and inside function bodies is equal exactly when it holds no NaN; function values, cells and iterators (8 constructors x 10 alias paths x 6 comparison forms, 38 hand-written programs) are equal exactly when they stem from one creation.",
          "Trusts the JSON value model's equality (IEEE for floats) and that each provenance expression evaluates to the intended value (checked first).",
          "DESIGN.md section 3, C19"),
  "C18": ("export discovery + exhaustive products of boundary argument pools + proptest random arguments; oracles: declared result type (harness membership), documented results by naive independent implementations (reference model), differential std::fs on a twin directory for fault states",
-         "Every function reachable from `std` (90 exports discovered at run time) is called through the host API and in-language on boundary/random arguments; results must inhabit the declared type, never raise, and match naive re-implementations of the documented behaviour; file-system functions are compared with std::fs on twin trees across 14 path states (all pairs for copy/rename); cgetline is fed generated stdin.",
+         "Every function reachable from `std` (90 exports discovered at run time) is called through the host API and in-language on boundary/random arguments (incl. strings and byte arrays around the UTF-8 encoding boundaries, overlong forms, the replacement character as content); results must inhabit the declared type, never raise, and match naive re-implementations of the documented behaviour; file-system functions are compared with std::fs on twin trees across 14 path states (all pairs for copy/rename); cgetline is fed generated stdin.",
          "Transcendental float functions are only compared with the platform libm; fs differential assumes the twin tree is in the same state (rebuilt before every case).",
          "DESIGN.md section 3, C18"),
  "C01": ("exhaustive operator x operand-type matrix with subsumption calls, executed under the verif monitor; oracle: harness-side membership of every observed value in the static type the checker computed (tag and contents)",
-         "Every unary/postfix/statement template on 60 operand types and every infix/assignment operator and two-operand template on all pairs; each accepted function is called through the host API and in-language with every catalogue value of its parameter types and, for one-parameter functions, with every catalogue value the host API admits (subsumption); the monitor reports each instruction result, argument, return, final result and reachable cell with its static type (~425k executions per quick run).",
+         "Every unary/postfix/statement template on 60 operand types and every infix/assignment operator and two-operand template on all pairs; each accepted function is called through the host API and in-language with every catalogue value of its parameter types and, for one-parameter functions, with every catalogue value the host API admits (subsumption); the monitor reports each instruction result, argument, return, final result and reachable cell with its static type, and every array's element-type label must admit its elements (~600k executions per quick run).",
          "Instructions inside the placeholder-typed helper closures of @ ? ~ are not judged (hook H4); the known finding C01:void-for-never (filler of an exhausted empty-typed iterator) is listed in KNOWN_FINDINGS.txt and excluded from the catalogue.",
          "DESIGN.md section 3, C01"),
  "C02": ("exhaustive operator x operand-type matrix and documentation corpus executed under a panic-capturing guard; crash oracle restricted to the six documented run-time errors",
@@ -73,23 +73,23 @@ CHECKS = {
          "Trusts the reference interpreter's order of evaluation, which follows the property text.",
          "DESIGN.md section 3, C07"),
  "C11": ("proptest-generated typed programs (iterator profile) against the reference interpreter's sequence semantics, laziness and pull order observed through the effect log",
-         "40k programs per quick run: array and user-written iterators, pipelines of @ ? `? T`, reducers, partition, for loops, manual pulls (flag only after exhaustion), shared stateful iterators, effectful callbacks.",
+         "40k programs per quick run: array and user-written iterators over ints, floats and strings, pipelines of @ ? `? T`, reducers (incl. float / string sums with typed empty sources), partition, for loops, manual pulls (flag only after exhaustion), shared stateful iterators, effectful callbacks.",
          "Fillers of exhausted array iterators are unspecified and discard a case when observable; user-written iterators carry explicit fillers.",
          "DESIGN.md section 3, C11"),
  "C12": ("proptest-generated typed programs (control profile) against the reference interpreter",
-         "40k programs per quick run nesting if / match (value, type, default arms) / if-set (member, union and any tests) / while-set / loop / while / for / run-once loops inside functions with break, continue and return at every depth.",
-         "Run-time type dispatch is only generated on scalars, where the run-time type is unambiguous.",
+         "40k programs per quick run nesting if / match (value, disjoint and overlapping type arms, default arms; the same match executed on values of different types) / if-set (member, union and any tests) / while-set / loop / while / for / run-once loops inside functions with break, continue and return at every depth.",
+         "Run-time type dispatch is only generated on scalars and on tuples, structs and cells of scalars, where the run-time type is unambiguous.",
          "DESIGN.md section 3, C12"),
  "C13": ("proptest-generated assignment histories over aliasing graphs against the reference heap, state inspection through the host API after run-time errors, plus the assignment part of the operand-type matrix under the verif monitor (cell typing under subsumption)",
-         "40k programs per quick run (cells profile): cells in bindings, aliases, closures, arrays; all 12 assignment operators incl. failing ones; every read, every yielded value, the aliasing structure of results and the cells still reachable after an error are compared; ~8k matrix cases check that every reachable cell holds a value of its declared type.",
+         "40k programs per quick run (cells profile): cells in bindings, aliases, closures, arrays; all 12 assignment operators incl. failing ones; every read, every yielded value, the aliasing structure of results and the cells still reachable after an error are compared; ~9k matrix and near-miss cases (cell widening, compound assignments with wider operands) check that every reachable cell - incl. the cells handed to a host call - holds a value of its declared type.",
          "Trusts the reference heap model; matrix part trusts hook H1/H2 observations.",
          "DESIGN.md section 3, C13"),
  "C05": ("repeated parse/run of generated and enumerated programs on fresh threads (fresh hash keys) with an all-repetitions-agree oracle (metamorphic: same input, different hash seeds), plus type-level determinism laws across instances",
-         "All unary matrix cells, order-sensitive hand-written programs, the documentation corpus, generated typed programs and random matrix cells are parsed and run 6 (quick) / 24 (thorough) times on fresh threads; acceptance, static type, value and error must coincide; generated type pairs must be ==, hash-equal and answer matches/|/conjoin identically across instances.",
+         "All unary matrix cells, order-sensitive hand-written programs, the documentation corpus, generated typed programs and random matrix cells are parsed and run 6 (quick) / 24 (thorough) times on fresh threads; acceptance, static type, value and error must coincide; generated type pairs must be ==, hash-equal and answer matches/|/conjoin identically across instances, and whatever the checker derives from a union of partially subsuming members (field, element, result, parameter types ...) must be the same structure on every parse.",
          "Hash keys come from the OS, not from VERIF_SEED: detection of an order-dependent defect is probabilistic per repetition; the check itself is deterministic on a correct tree.",
          "DESIGN.md section 3 C05 and section 7"),
  "C17": ("proptest-generated statement sequences split into REPL inputs (differential batch vs incremental route), double execution of one Code, and exhaustive create_call vs in-language call acceptance/result differential over the operand-type matrix",
-         "12k generated programs per quick run split into inputs of 1-3 statements and compared after every input on last result and all top-level variables; each program executed twice (equal results, disjoint cells, untouched interpreter); ~330k host-vs-language call comparisons incl. ill-typed and wrong-arity argument lists.",
+         "12k generated programs per quick run split into inputs of 1-3 statements and compared after every input on last result and all top-level variables; each program executed twice (equal results, disjoint cells, untouched interpreter); ~390k host-vs-language call comparisons incl. ill-typed and wrong-arity argument lists (19 functions of arity 0-3: native iterators, std functions, parameters spelled like the function, recursion, captured cells).",
          "Acceptance differences between batch and incremental routes are allowed by the property and end the comparison of a case.",
          "DESIGN.md section 3, C17"),
 }
